@@ -137,4 +137,38 @@ def cfDispatch (existsFile : Bool) (loader : Option Bool) (format type : String)
   else if loader.isNone && !(["ascii", "ucerf3"].contains type) then .keyError
   else .forecast loader.isSome (format = "native" && type = "ascii")
 
+/-! ## 4. keyword plumbing of `load_catalog_forecast(fname, catalog_loader, format, type, **kwargs)`
+
+  The extra keywords go to `CatalogForecast.__init__` (csep/core/forecasts.py:476-575) and act in `__next__` (:580-640): the
+  filter stage runs only when `apply_filters` is set, and then each of `filters`, `apply_mct`, `filter_spatial` only when it
+  is configured; `store` decides whether a second pass replays the stored catalogs or calls the loader again; `region`, `name`,
+  `n_cat`, `start_time`, `end_time` are stored.  What the stage does to a catalog is C04 / C13's subject: a parameter here. -/
+
+structure CfKw where
+  applyFilters : Bool      -- `apply_filters`
+  hasFilters : Bool        -- `filters` non-empty
+  applyMct : Bool          -- `apply_mct`
+  filterSpatial : Bool     -- `filter_spatial`
+  hasRegion : Bool         -- `region` given
+  store : Bool             -- `store`
+  deriving DecidableEq, Repr
+
+/-- does `__next__` touch the decoded catalogs at all? -/
+def CfKw.stageActive (k : CfKw) : Bool := k.applyFilters && (k.hasFilters || k.applyMct || k.filterSpatial)
+
+/-- the catalogs one pass over the forecast delivers, given what the loader decodes -/
+def delivered (k : CfKw) (stage : Catalog → Catalog) (decoded : List Catalog) : List Catalog :=
+  if k.stageActive then decoded.map stage else decoded
+
+/-- a second pass: the stored (already filtered) catalogs with the stage switched off (`store=True`: forecasts.py:607-611), or
+    the loader called again and the stage applied again (`store=False`) -/
+def secondPass (k : CfKw) (stage : Catalog → Catalog) (decoded : List Catalog) : List Catalog :=
+  if k.store then delivered k stage decoded else delivered k stage decoded
+
+/-- `csep.load_catalog_forecast(text, **kw)` iterated once: `none` = the loader raises -/
+def forecastPass (k : CfKw) (stage : Catalog → Catalog) (text : String) : Option (List Catalog) :=
+  match decodeTextML text with
+  | .ok cs => some (delivered k stage cs)
+  | .error _ => none
+
 end AsciiCatalogs
